@@ -84,7 +84,8 @@ theorem firstTok_append_ws (W rest : List PTok) (h : ∀ t ∈ W, t.tok.isWhites
 /-- a successful paste: both operands are words or operators, and the reference's `pasteTok` gives the same token -/
 theorem pasteTokens_ok_shape (l r m : PTok) (h : pasteTokens l r = .ok m) :
     (∃ a, l.tok = .id a ∨ l.tok = .int a ∨ l.tok = .punct a) ∧
-    (∃ b, r.tok = .id b ∨ r.tok = .int b ∨ r.tok = .punct b) ∧ pasteTok l.tok r.tok = some m.tok := by
+    (∃ b, r.tok = .id b ∨ r.tok = .int b ∨ r.tok = .punct b) ∧ pasteTok l.tok r.tok = some m.tok ∧
+    (∃ x, m.tok = .id x ∨ m.tok = .int x ∨ m.tok = .punct x) := by
   unfold pasteTokens at h
   split at h
   · cases h
@@ -93,25 +94,25 @@ theorem pasteTokens_ok_shape (l r m : PTok) (h : pasteTokens l r = .ok m) :
       split at h
       · cases h
       · cases h
-        exact ⟨⟨a, Or.inl h1⟩, ⟨b, Or.inl h2⟩, by simp [h1, h2, pasteTok]⟩
+        exact ⟨⟨a, Or.inl h1⟩, ⟨b, Or.inl h2⟩, by simp [h1, h2, pasteTok], ⟨_, Or.inl rfl⟩⟩
     · rename_i a b h1 h2
       split at h
       · cases h
       · cases h
-        exact ⟨⟨a, Or.inl h1⟩, ⟨b, Or.inr (Or.inl h2)⟩, by simp [h1, h2, pasteTok]⟩
+        exact ⟨⟨a, Or.inl h1⟩, ⟨b, Or.inr (Or.inl h2)⟩, by simp [h1, h2, pasteTok], ⟨_, Or.inl rfl⟩⟩
     · rename_i a b h1 h2
       split at h
       · cases h
       · split at h
         · cases h
         · cases h
-          exact ⟨⟨a, Or.inr (Or.inl h1)⟩, ⟨b, Or.inr (Or.inl h2)⟩, by simp [h1, h2, pasteTok]⟩
+          exact ⟨⟨a, Or.inr (Or.inl h1)⟩, ⟨b, Or.inr (Or.inl h2)⟩, by simp [h1, h2, pasteTok], ⟨_, Or.inr (Or.inl rfl)⟩⟩
     · rename_i a b h1 h2
       split at h
       · rename_i hc
         cases h
         exact ⟨⟨a, Or.inr (Or.inr h1)⟩, ⟨b, Or.inr (Or.inr h2)⟩, by
-          simp only [h1, h2, pasteTok, hc, if_true]⟩
+          simp only [h1, h2, pasteTok, hc, if_true], ⟨_, Or.inr (Or.inr rfl)⟩⟩
       · cases h
     · split at h <;> cases h
 
@@ -148,7 +149,7 @@ theorem pn_firstTok {env : List Entry} {l : List PTok} {ks : List Tok} (h : PN e
     intro hh
     simp only [Bool.false_eq_true, if_false, Option.some.injEq] at hh
     -- `pasteTokens` fails on a `Concat` operand
-    obtain ⟨⟨a, ha⟩, _, _⟩ := pasteTokens_ok_shape _ _ _ hp
+    obtain ⟨⟨a, ha⟩, _, _, _⟩ := pasteTokens_ok_shape _ _ _ hp
     rw [hh] at ha
     rcases ha with ha | ha | ha <;> cases ha
 
@@ -392,6 +393,134 @@ theorem tameP_identity {env : List Entry} {a a' : List PTok} (h : TameP env a a'
     have := hod ⟨.id n, b⟩ (by simp) n rfl e (List.mem_of_getElem? hsel.get) hsel.name
     rw [hsel.enabled] at this
     cases this
+
+
+/-! ## `doPastes` along the paste normal form -/
+
+/-- the reference's items (after `replaceParams`) against the model's substituted replacement list -/
+inductive ItemsAl : List Item → List PTok → Prop
+  | nil : ItemsAl [] []
+  | ws (t : PTok) (rest : List PTok) (items : List Item) : t.tok.isWhitespace = true → ItemsAl items rest →
+      ItemsAl items (t :: rest)
+  | cc (t : PTok) (rest : List PTok) (items : List Item) : t.tok = .concat → ItemsAl items rest →
+      ItemsAl (.paste :: items) (t :: rest)
+  | tk (t : PTok) (rest : List PTok) (items : List Item) (s : HTok) : t.tok.isWhitespace = false → t.tok ≠ .concat →
+      s.tok = t.tok → ItemsAl items rest → ItemsAl (.tok s :: items) (t :: rest)
+
+/-- what is known about the hide set of an item before the hide set of the invocation is added: empty (a token of
+the replacement list), or the token names no enabled macro (it came out of an argument, or out of a paste) -/
+def GoodItem (env : List Entry) : Item → Prop
+  | .tok s => s.hide = [] ∨ ∀ n, s.tok = .id n → ∀ e ∈ env, e.m.name = n → e.disabled = true
+  | _ => False
+
+theorem doPastes_nil (done : List Item) : doPastes done [] = .ok done.reverse := by
+  rw [doPastes]
+
+theorem doPastes_tok (done : List Item) (s : HTok) (rest : List Item) :
+    doPastes done (.tok s :: rest) = doPastes (.tok s :: done) rest := by
+  rw [doPastes]
+  intro h; cases h
+
+theorem doPastes_paste (done : List Item) (a b : HTok) (rest : List Item) (k : Tok)
+    (h : pasteTok a.tok b.tok = some k) :
+    doPastes (.tok a :: done) (.paste :: .tok b :: rest) =
+      doPastes done (.tok ⟨k, a.hide.filter (b.hide.contains ·)⟩ :: rest) := by
+  rw [doPastes]
+  simp [pasteItems, h]
+
+theorem itemsAl_ws_prefix (W rest : List PTok) (items : List Item) (hW : ∀ t ∈ W, t.tok.isWhitespace = true)
+    (h : ItemsAl items (W ++ rest)) : ItemsAl items rest := by
+  induction W with
+  | nil => exact h
+  | cons w ws ih =>
+    have hw := hW w (by simp)
+    rw [List.cons_append] at h
+    cases h with
+    | ws _ _ _ _ h' => exact ih (fun t ht => hW t (by simp [ht])) h'
+    | cc _ _ _ hc _ => rw [hc] at hw; cases hw
+    | tk _ _ _ _ hnw _ _ _ => rw [hw] at hnw; cases hnw
+
+/-- the items that face a paste continuation of the model's list -/
+theorem itemsAl_splitPaste (rest rest2 : List PTok) (t2 : PTok) (items : List Item)
+    (hs : splitPaste rest = some (t2, rest2)) (h : ItemsAl items rest) :
+    ∃ s2 items2, items = .paste :: .tok s2 :: items2 ∧ s2.tok = t2.tok ∧ ItemsAl items2 rest2 := by
+  obtain ⟨W1, c, W2, hrest, hc, hw1, hw2, ht2, ht2c⟩ := splitPaste_spec rest rest2 t2 hs
+  rw [hrest] at h
+  have h1 := itemsAl_ws_prefix W1 _ items hw1 h
+  cases h1 with
+  | ws _ _ _ hw _ => rw [hc] at hw; cases hw
+  | tk _ _ _ _ _ hnc _ _ => exact absurd hc hnc
+  | cc _ _ items1 _ h2 =>
+    have h3 := itemsAl_ws_prefix W2 _ items1 hw2 h2
+    cases h3 with
+    | ws _ _ _ hw _ => rw [ht2] at hw; cases hw
+    | cc _ _ _ hcc _ => exact absurd hcc ht2c
+    | tk _ _ items2 s2 _ _ hs2 h4 => exact ⟨s2, items2, rfl, hs2, h4⟩
+
+def itemTokOf : Item → Option Tok
+  | .tok s => some s.tok
+  | _ => none
+
+/-- **`doPastes` carries out exactly the pastes of the paste normal form**, left to right; what it leaves are token
+items that spell the normal form, each an item of the input or a merged one -/
+theorem doPastes_pn {env : List Entry} {l : List PTok} {ks : List Tok} (hpn : PN env l ks) :
+    ∀ (items : List Item), ItemsAl items l → (∀ it ∈ items, it = .paste ∨ GoodItem env it) →
+    ∀ done, ∃ out : List HTok, doPastes done items = .ok (done.reverse ++ out.map Item.tok) ∧
+      out.map (·.tok) = ks ∧ ∀ s ∈ out, GoodItem env (.tok s) := by
+  induction hpn with
+  | nil =>
+    intro items hal _ done
+    cases hal
+    exact ⟨[], by simp [doPastes_nil], rfl, fun s hs => (by cases hs)⟩
+  | ws t rest ks hw _ ih =>
+    intro items hal hgood done
+    cases hal with
+    | ws _ _ _ _ h' => exact ih items h' hgood done
+    | cc _ _ _ hc _ => rw [hc] at hw; cases hw
+    | tk _ _ _ _ hnw _ _ _ => rw [hw] at hnw; cases hnw
+  | tok t rest ks hw hc _ _ ih =>
+    intro items hal hgood done
+    cases hal with
+    | ws _ _ _ hw' _ => rw [hw] at hw'; cases hw'
+    | cc _ _ _ hcc _ => exact absurd hcc hc
+    | tk _ _ items' s _ _ hs h' =>
+      obtain ⟨out, h1, h2, h3⟩ := ih items' h' (fun it hit => hgood it (by simp [hit])) (.tok s :: done)
+      refine ⟨s :: out, ?_, by simp [hs, h2], ?_⟩
+      · rw [doPastes_tok, h1]; simp
+      · intro x hx
+        rcases List.mem_cons.mp hx with rfl | hx
+        · rcases hgood (.tok x) (by simp) with hh | hh
+          · cases hh
+          · exact hh
+        · exact h3 x hx
+  | paste t1 t2 m rest rest2 ks hw hs hp hod _ ih =>
+    intro items hal hgood done
+    cases hal with
+    | ws _ _ _ hw' _ => rw [hw] at hw'; cases hw'
+    | cc _ _ _ hcc _ =>
+      obtain ⟨⟨a, ha⟩, _, _, _⟩ := pasteTokens_ok_shape _ _ _ hp
+      rw [hcc] at ha
+      rcases ha with ha | ha | ha <;> cases ha
+    | tk _ _ items1 s1 _ _ hs1 h' =>
+      obtain ⟨s2, items2, hitems, hs2, h2⟩ := itemsAl_splitPaste rest rest2 t2 items1 hs h'
+      subst hitems
+      obtain ⟨_, _, hpt, hmk⟩ := pasteTokens_ok_shape _ _ _ hp
+      have hpt' : pasteTok s1.tok s2.tok = some m.tok := by rw [hs1, hs2]; exact hpt
+      -- the merged item against the merged token
+      have hmw : m.tok.isWhitespace = false ∧ m.tok ≠ .concat := by
+        obtain ⟨x, hx | hx | hx⟩ := hmk <;> simp [hx, Tok.isWhitespace]
+      have hal2 : ItemsAl (.tok ⟨m.tok, s1.hide.filter (s2.hide.contains ·)⟩ :: items2) (m :: rest2) :=
+        ItemsAl.tk m rest2 items2 _ hmw.1 hmw.2 rfl h2
+      obtain ⟨out, h1, h2', h3⟩ := ih _ hal2 (by
+        intro it hit
+        rcases List.mem_cons.mp hit with rfl | hit
+        · right
+          right
+          intro n hn e he hname
+          exact hod m (by simp) n hn e he hname
+        · exact hgood it (by simp [hit])) done
+      refine ⟨out, ?_, h2', h3⟩
+      rw [doPastes_tok, doPastes_paste done s1 s2 items2 m.tok hpt', h1]
 
 
 end RsslVerif.Lemmas.MacroTamePSpec
